@@ -12,6 +12,8 @@ VARIABLE c
 \* nonascii_dir  a directory with a non-ASCII name            upper_dir     a directory called SRC_Types
 \* symlink_file  a .rs file that is a symbolic link to a regular file outside the scanned directories (a linked FILE is read with
 \*               or without --follow-links; the option is about linked directories)
+\* sibling_prefix_root  under a second DIRECTORIES argument whose path starts with the characters of the first one (root1, root1-types)
+\* prefix_crate_dirs    the directory arguments are three crate directories, one of them named like another plus a suffix (ca, ca-types)
 \* no_src        a crate directory without a src directory (single-file mode only: folder mode names files after the directory above src)
 Init == c \in { r \in [place : Places, mode : Modes, lang : Langs] : r.place = "no_src" => r.mode = "single" }
 Next == UNCHANGED c
